@@ -79,10 +79,13 @@ pub fn budget(prop: &str, tier: &str) -> u64 {
         "C14" => 3 * 6 * 155 + 200,
         _ => 150,
     };
+    // change-directed effort: when /repo's sources differ from the tree the framework was last validated against, the
+    // orchestrator asks for a multiple of the quick budget (more exploration only; never a different verdict rule)
+    let mult: u64 = std::env::var("KH_BUDGET_MULT").ok().and_then(|s| s.parse().ok()).unwrap_or(1).max(1);
     if tier == "thorough" {
         quick * 20
     } else {
-        quick
+        quick * mult
     }
 }
 
